@@ -493,6 +493,10 @@ impl World for RwWorld {
         m
     }
 
+    fn word_addrs(&self) -> Vec<usize> {
+        if self.alive() { self.lref().__verif_snapshot().addrs } else { Vec::new() }
+    }
+
     fn pending(&self) -> usize {
         self.futs.values().filter(|x| x.polled && !x.done).count()
     }
